@@ -275,6 +275,16 @@ def check_text(case, ctx):
         g = run(["gcc", "-fsyntax-only", "-std=c11", "-w", path], env={"PATH": "/usr/bin:/bin", "LC_ALL": "C"}, timeout=30)
         gm = re.search(r"^(?:In file included[^\n]*\n)*([^\n:]+):(\d+):\d+: error:", g.err.decode(errors="replace"), re.M)
         p = cproc.cc(ctx, None, "x86_64-sysv", "plain", path=path)
+        # several input files on the command line form one translation unit, and each starts at its own line 1: an earlier
+        # input of k lines (ending in a new-line, 5.1.1.2p2) must not move the locations reported for this one
+        p2 = None
+        hk = int(sha(text)[:6], 16)
+        if hk % 3 == 0:
+            pre = os.path.join(d, "pre.c")
+            k = [1, 2, 7, 40][(hk // 3) % 4]
+            with open(pre, "w") as f:
+                f.write("".join(["extern int pre_decl_%d;\n" % i if i % 2 == 0 else "/* pre */\n" for i in range(k)]) + ("" if hk % 5 else "typedef int pre_t;\n"))
+            p2 = cproc.cc(ctx, None, "x86_64-sysv", "plain", args=[pre], path=path)
     finally:
         shutil.rmtree(d, ignore_errors=True)
     res.sample = {"vio": case["vio"], "labels": case["labels"], "tail": text[-200:]}
@@ -309,6 +319,14 @@ def check_text(case, ctx):
         res.fail = dict(sig="", msg="diagnostic %r names %s:%d; the offending construct %r is at presumed %s (gcc: %s:%d)"
                         % (m.group(4), loc[0], loc[1], case["vio"], sorted(want), gloc[0], gloc[1]), input=text)
         return res
+    if p2 is not None:
+        first2 = p2.err.decode(errors="replace").split("\n")[0]
+        m2 = re.match(r"^(.*?):(\d+):(\d+): error: (.*)$", first2)
+        if p2.rc == 0 or not m2 or (m2.group(1), int(m2.group(2))) not in want:
+            res.fail = dict(sig="", msg="as the second input file on the command line (after a file of some lines) the diagnostic becomes %r; the offending "
+                            "construct %r is at presumed %s" % (first2, case["vio"], sorted(want)), input=text)
+            return res
+        res.labels.append("second-input-file")
     phys = case["vio_lines"][0]
     if pres[phys - 1][1] != phys or pres[phys - 1][0] != path or set(case["labels"]) & {"splice", "comment-lines", "multi-line-invocation", "splice-in-violation"}:
         res.keys.append(sha(text))
